@@ -192,17 +192,21 @@ def generics():
     src, tree = load(CG)
     f = find_def(tree, 'check_instance_of_generic_class_and_get_type_vars', UNIT)
     body = strip_doc(f.body)
-    ref = ast.parse(
-        'type_vars = dict()\n'
-        '_assert_constructor_called_with_generics(instance=instance)\n'
-        "if not hasattr(instance, '__orig_class__'):\n"
-        '    return type_vars\n'
-        'type_variables = get_type_arguments(type(instance).__orig_bases__[0])\n'
-        'actual_types = get_type_arguments(instance.__orig_class__)\n'
-        'for i, type_var in enumerate(type_variables):\n'
-        '    type_vars[type_var] = actual_types[i]\n'
-        'return type_vars\n').body
-    if [dump(s) for s in body] != [dump(s) for s in ref]:
+    def ref(tvline):
+        return ast.parse(
+            'type_vars = dict()\n'
+            '_assert_constructor_called_with_generics(instance=instance)\n'
+            "if not hasattr(instance, '__orig_class__'):\n"
+            '    return type_vars\n'
+            + tvline +
+            'actual_types = get_type_arguments(instance.__orig_class__)\n'
+            'for i, type_var in enumerate(type_variables):\n'
+            '    type_vars[type_var] = actual_types[i]\n'
+            'return type_vars\n').body
+    # the class's own parameters, in declaration order (for `class C(Generic[T1..Tn])` both spellings coincide)
+    variants = ['type_variables = type(instance).__parameters__\n',
+                'type_variables = get_type_arguments(type(instance).__orig_bases__[0])\n']
+    if not any([dump(s) for s in body] == [dump(s) for s in ref(v)] for v in variants):
         bad('check_instance_of_generic_class_and_get_type_vars: shape not recognised')
     g = find_def(tree, 'is_instance_of_generic_class', UNIT)
     gb = strip_doc(g.body)
